@@ -17,6 +17,8 @@ use std::sync::Arc;
 
 fn c10_cfg(t: Tier) -> HistCfg {
     let mut c = HistCfg::general(t.pick(30, 90));
+    c.churn_pow = t.pick(14, 17);
+    c.burst_pow = t.pick(10, 13);
     c.w_rebuild = 14;
     c.w_read = 1;
     c
@@ -173,7 +175,7 @@ pub fn run(cfg: &RunCfg) -> Report {
     );
     rep.assumptions = vec!["external inputs have distinct order ids and order.price == level price (DESIGN §8)".into()];
     let tier = cfg.tier;
-    let n = cfg.cases(200_000, 6_000_000);
+    let n = cfg.cases(100_000, 3_000_000);
     let known_excuse = (true, true);
     rep.absorb(
         "history",
